@@ -14,7 +14,7 @@ FILES = ["src/stereomolgraph/graphs/mg.py", "src/stereomolgraph/graphs/smg.py", 
 FUNCTIONS = ["MolGraph.subgraph", "StereoMolGraph.subgraph", "MolGraph.connected_components", "MolGraph.node_connected_component",
              "MolGraph.compose", "StereoMolGraph.compose", "StereoCondensedReactionGraph.compose"]
 BOUNDS = {"quick": "graphs: solver-enumerated family over universe {0,1,2} (C09 quick restrictions) x every subset mask; iterable kinds list/set/tuple/"
-                   "generator/dict-keys; covers: components, all 2-piece overlapping covers",
+                   "generator/dict-keys; covers: components, all 2-piece overlapping covers; composition edited (attribute, single stereo-change entries, a descriptor) and the same pieces composed again; connected_components before and after an in-place relabel",
           "thorough": "all decorations; universe {0,1,2,3} for MG/CRG"}
 OUTSIDE = "subsets naming identifiers that are not atoms of the graph (undefined); universes > 4 ids"
 ASSUMPTIONS = ["a None placeholder is not an atom: a descriptor whose real atoms all lie in S belongs to subgraph(S)",
